@@ -36,16 +36,19 @@ THEOREMS = ['BB.Props.C14.' + n for n in (
 
 RULE = ('seeded include trees: depth 0-4; include line first / middle / last / only line of the including file; the included '
         'file in the including file\'s directory, in a sub-directory written sub/x.asm, in a parent directory written ../x.asm, '
-        'under an absolute path, or in one of 0-2 -i directories; the same file name present in several searched directories '
+        'under an absolute path, or in one of 0-2 -i directories; about a third of the paths re-spelled with . / .. / doubled-slash '
+        'components (./x, a//b, a/./b, updir/../x, ../here/../x, /abs/../abs/x) and half of the -i directories handed over with a '
+        'trailing slash, /. , // or a down-and-up /../name; the same file name present in several searched directories '
         '(shadow files with other contents, placed where only the search order -i dirs in order, then the including file\'s '
         'directory - decides); nested includes that only resolve relative to the INCLUDED file\'s directory (with a shadow of '
         'the same name next to the main file); include_bytes in main and included files; quoted paths, comments after the '
         'path, upper-case INCLUDE; cross-file label references and constants (so that the splice position matters); a '
-        'label-free file included twice; ~10% failing trees (missing include, missing include_bytes, include of a '
+        'label-free file included twice; ~10% failing trees (missing include - also paths that exist only after LEXICAL '
+        'normalisation: nosuchdir/../me.asm, me.asm/, me.asm/../me.asm -, missing include_bytes, include of a '
         'directory, include cycle, malformed include line, a faulty line inside an included file). Each tree: '
         'asm.assemble on the absolute main path from >= 3 working directories (root, a directory of same-name same-size '
         'decoys, an unrelated empty one, the main file\'s own directory), on the relative main path from its directory and '
-        'its parent, with and without -c; every 4th tree also through the command line (-i relative and absolute, main '
+        'its parent, on the absolute main path written with ./.. components, with and without -c; every 4th tree also through the command line (-i relative and absolute, main '
         'relative and absolute). non-trivial = distinct (depth, include positions, path forms, resolution classes, '
         'failure kind, outcome).')
 
@@ -169,7 +172,7 @@ def gen_tree(rnd, idx):
         choices = ['same', 'same', 'sub', 'sub']
         if t.incdirs:
             choices += ['inc', 'inc', 'inc', 'incsub']
-        if '/' in incl_dir and rnd.random() < 0.3:
+        if '/' in incl_dir:
             choices.append('parent')
         choices.append('abs')
         how = rnd.choice(choices)
@@ -218,7 +221,42 @@ def gen_tree(rnd, idx):
         del added[:]
         st['resol'].add(how)
         t.dirs.add(tdir)
-        return target, written
+        return target, respell(written, target, searched, incl_dir)
+
+    def respell(written, target, searched, incl_dir):
+        """the same path written with `.` / `..` / doubled-slash components (what the OS resolves identically)"""
+        if rnd.random() < 0.65:
+            return written
+        if written.startswith(ROOT):
+            tail = written[len(ROOT) + 1:]                      # abs/<name>
+            st['resol'].add('spelling:abs-updown')
+            return ROOT + '/abs/../' + tail if rnd.random() < 0.5 else ROOT + '//' + tail
+        # the searched directory the written path is relative to
+        base = None
+        for d in searched:
+            if os.path.normpath(d + '/' + written) == target:
+                base = d
+                break
+        kinds = ['dot']
+        if '/' in written:
+            kinds += ['dslash', 'middot']
+        if base is not None and not written.startswith('..'):
+            kinds.append('updown')
+        if written.startswith('../'):
+            kinds.append('parent-downup')
+        k = rnd.choice(kinds)
+        st['resol'].add('spelling:' + k)
+        if k == 'dot':
+            return './' + written
+        if k == 'dslash':
+            return written.replace('/', '//', 1)
+        if k == 'middot':
+            return written.replace('/', '/./', 1)
+        if k == 'updown':
+            t.dirs.add(base + '/updir')
+            return 'updir/../' + written
+        # ../name  ->  ../<this directory>/../name
+        return '../' + os.path.basename(incl_dir) + '/' + written
 
     def make_file(path, depth, chain):
         """generate the text file at `path` (program order = generation order)"""
@@ -301,8 +339,13 @@ def gen_tree(rnd, idx):
     # planted failure
     if fail:
         plant_failure(rnd, t, fail, shift_targets)
+    # how the -i directories are spelled when handed to assemble(): normal, trailing slash, /., down-and-up
+    inc_spell = []
+    for d in t.incdirs:
+        inc_spell.append(rnd.choice(['', '', '', '/', '/.', '/../' + os.path.basename(d), '//']) if rnd.random() < 0.5 else '')
     t.meta = dict(depth=st['depth'], positions=sorted(st['positions']), forms=sorted(st['forms']),
-                  resolution=sorted(st['resol']), n_files=len(t.files), n_bins=len(t.bins), fail=t.expect)
+                  resolution=sorted(st['resol']), n_files=len(t.files), n_bins=len(t.bins), fail=t.expect,
+                  inc_spell=inc_spell)
     return t
 
 
@@ -336,7 +379,11 @@ def plant_failure(rnd, t, kind, shift_targets):
 
     t.expect = kind
     if kind == 'missing':
-        t.expect_at = insert(rnd.choice(['include nosuchfile.asm', 'include "sub/nosuchfile.asm"', 'include main.asm.bak  # gone']))
+        me = os.path.basename(p)
+        t.expect_at = insert(rnd.choice(['include nosuchfile.asm', 'include "sub/nosuchfile.asm"', 'include main.asm.bak  # gone',
+                                         # present only for a reader that normalises the path string instead of asking the OS
+                                         'include nosuchdir/../%s' % me, 'include %s/' % me, 'include %s/../%s' % (me, me),
+                                         'include ./nosuchdir/./../%s  # lexically this is me' % me]))
     elif kind == 'missing_bytes':
         t.expect_at = insert('include_bytes nosuchfile.bin')
     elif kind == 'malformed':
@@ -407,22 +454,23 @@ def materialise(t, root):
                 continue
             deep = os.path.join(decoy, 'deep')
             os.makedirs(deep, exist_ok=True)
-            if rel.startswith('..'):
-                # a parent-relative include: what a lookup relative to the working directory decoy/deep would find
-                dp0 = os.path.normpath(os.path.join(deep, rel))
-                if not dp0.startswith(decoy + os.sep):
-                    continue
-            else:
-                dp0 = None
             found = None
-            for d in [os.path.join(root, x) for x in t.incdirs] + [os.path.join(root, os.path.dirname(p))]:
+            for d in spelled_incs(t, root) + [os.path.join(root, os.path.dirname(p))]:
                 if os.path.isfile(os.path.join(d, rel)):
                     found = os.path.join(d, rel)
                     break
             if found is None:
                 continue
             size = os.path.getsize(found)
-            for dp in ([dp0] if dp0 else [os.path.join(decoy, rel), os.path.join(deep, rel)]):
+            # what a lookup of the written path relative to the working directories decoy/ and decoy/deep would find
+            # (never outside the decoy directory: a decoy must not become reachable through the real search path)
+            for base in (decoy, deep):
+                raw = os.path.join(base, rel)
+                dp = os.path.normpath(raw)
+                if not dp.startswith(decoy + os.sep) or os.path.isdir(dp):
+                    continue
+                if not _mkdirs_literal(os.path.dirname(raw), inside=decoy):
+                    continue
                 os.makedirs(os.path.dirname(dp), exist_ok=True)
                 with open(dp, 'wb') as f:
                     if rel.endswith('.bin'):
@@ -432,6 +480,29 @@ def materialise(t, root):
                         f.write((b'#' * max(size - 1, 0) + b'\n')[:size] if size else b'')
                 n += 1
     return n
+
+
+def _mkdirs_literal(path, inside):
+    """make every directory the OS walks through when it resolves `path` (which may contain . and .. components);
+    False (nothing more created) as soon as the walk would leave the directory `inside`"""
+    cur = '/'
+    for c in path.split('/'):
+        if c in ('', '.'):
+            continue
+        cur = os.path.normpath(os.path.join(cur, c))
+        if cur.startswith(inside + os.sep) or cur == inside:
+            os.makedirs(cur, exist_ok=True)
+        elif inside.startswith(cur + os.sep) or cur == '/':
+            continue            # still on the way down to `inside`
+        else:
+            return False
+    return True
+
+
+def spelled_incs(t, root):
+    """the -i directories as handed to assemble(): absolute, possibly with a trailing slash, /. or down-and-up"""
+    sp = (t.meta or {}).get('inc_spell') or []
+    return [os.path.join(root, d) + (sp[i] if i < len(sp) else '') for i, d in enumerate(t.incdirs)]
 
 
 # ---------------------------------------------------------------------------------------------
@@ -474,8 +545,9 @@ def run_cli(repo, cwd, main_arg, inc_args, compress, outdir, tag):
     return p.returncode, b, l, p.stderr.decode('utf-8', 'replace')[-300:]
 
 
-def model_request(t, root, cwd, compress):
-    """bbdrv asmfs request: the same files / directories / cwd as absolute normalised paths"""
+def model_request(t, root, cwd, compress, main=None):
+    """bbdrv asmfs request: the same files / directories as absolute normalised paths; the -i directories and the
+    main path as the strings the real code is given"""
     files = []
     for p, lines in t.files.items():
         files.append((os.path.join(root, p), '\n'.join(lines).replace(ROOT, root).encode()))
@@ -493,8 +565,8 @@ def model_request(t, root, cwd, compress):
     while d != '/':
         d = os.path.dirname(d)
         dirs.add(d)
-    incs = [os.path.join(root, x) for x in t.incdirs]
-    toks = ['asmfs', '1' if compress else '0', common.hexs(cwd), 'p', common.hexs(os.path.join(root, t.main)), str(len(incs))]
+    incs = spelled_incs(t, root)
+    toks = ['asmfs', '1' if compress else '0', common.hexs(cwd), 'p', common.hexs(main or os.path.join(root, t.main)), str(len(incs))]
     toks += [common.hexs(x) for x in incs]
     toks.append(str(len(files)))
     for p, b in files:
@@ -520,7 +592,7 @@ def check_tree(t, with_cli=False, repo=None):
         out['n_decoys'] = materialise(t, root)
         main_abs = os.path.join(root, t.main)
         maindir = os.path.dirname(main_abs)
-        incs = [os.path.join(root, d) for d in t.incdirs]
+        incs = spelled_incs(t, root)
         cwds = [root, os.path.join(root, 'decoy'), os.path.join(root, 'decoy', 'deep'), os.path.join(root, 'elsewhere'), maindir, '/']
         flat = splice(t, root)
         reqs = []
@@ -535,6 +607,11 @@ def check_tree(t, with_cli=False, repo=None):
             par = os.path.dirname(maindir)
             res = run_impl(asm, os.path.relpath(main_abs, par), par, incs, compress)
             runs.append(('rel-main cwd=parent', norm_res(res, par), res))
+            # the absolute main path written with . and .. components
+            md = os.path.basename(maindir)
+            main_odd = os.path.join(os.path.dirname(maindir), '.', md, '..', md, 'main.asm')
+            odd_res = run_impl(asm, main_odd, root, incs, compress)
+            runs.append(('abs-main with ./.. components', norm_res(odd_res, root), odd_res))
             ref_name, ref, ref_res = runs[0]
             out['results'][compress] = ref[0] if ref[0] != 'exc' else 'exc:' + str(ref[1])
             for name, r, _ in runs[1:]:
@@ -558,6 +635,11 @@ def check_tree(t, with_cli=False, repo=None):
                                                 msg='tree fails with %s, spliced program with %s' % (short(ref), short(f))))
             if t.expect == 'ok' and ref[0] != 'ok':
                 out['unexpected_failure'] = short(ref)
+            if t.expect in ('missing', 'missing_bytes') and ref[0] != 'asmerr':
+                # the planted path names nothing the operating system finds from any searched directory
+                out['problems'].append(dict(kind='missing-include-found', compress=compress,
+                                            msg='line %d of %s names a file that does not exist in any searched directory, yet the '
+                                                'outcome is %s instead of an AssemblerError' % (t.expect_at[1], t.expect_at[0], short(ref))))
             if t.expect_at is not None:
                 # where the planted fault is reported (counted; the location itself is C15's subject)
                 want = ('asmerr', os.path.join(root, t.expect_at[0]), t.expect_at[1])
@@ -565,6 +647,7 @@ def check_tree(t, with_cli=False, repo=None):
             # correspondence requests (two cwds)
             for cwd in (cwds[0], cwds[1]):
                 reqs.append((compress, cwd, ref_res, model_request(t, root, cwd, compress)))
+            reqs.append((compress, root, odd_res, model_request(t, root, root, compress, main=main_odd)))
             # the command line
             if with_cli:
                 outdir = os.path.join(root, 'elsewhere', 'out')
@@ -595,6 +678,13 @@ def check_tree(t, with_cli=False, repo=None):
             v = corr.compare(reply, res)
             if v == 'differ' and res.status == 'exc' and res.exc == 'RecursionError':
                 v = 'unsupported'
+            if v == 'differ' and res.status == 'asmerr' and reply.startswith('err asm '):
+                # C14 compares WHICH file and line (the spelling of the path in the message is C15's subject)
+                _, _, hx, ln = reply.split()
+                mfile = bytes.fromhex(hx).decode('utf-8', 'replace')
+                if int(ln) == res.err_line and os.path.normpath(mfile) == os.path.normpath(res.err_file):
+                    v = 'same'
+                    out['spelling_only'] = out.get('spelling_only', 0) + 1
             out['corr'].append(v)
             if v == 'differ':
                 out['corr_diff'].append(dict(compress=compress, cwd=os.path.relpath(cwd, root), root=root,
@@ -652,6 +742,8 @@ def run(tier, replay):
             rep.count('generated_ok_tree_fails_consistently')
         if 'planted' in r:
             rep.count('planted_fault_' + r['planted'])
+        if r.get('spelling_only'):
+            rep.count('error_path_differs_in_spelling_only', r['spelling_only'])
         for v in r['corr']:
             rep.count('model_vs_impl_' + v)
         for d in r['corr_diff']:
@@ -664,15 +756,19 @@ def run(tier, replay):
         if len(rep.samples) < 4 and m['depth'] >= 2 and tj['expect'] == 'ok' and r['results'].get(True) == 'ok':
             rep.sample(dict(main=tj['main'], incdirs=tj['incdirs'], files={k: v[:12] for k, v in list(tj['files'].items())[:6]},
                             bins=list(tj['bins']), meta=m))
+    # the programs the repository ships (5 of 7 start with `include ../bronzebeard/definitions/<chip>.asm`)
+    nex, exdiff = corr.examples_check(rep, PROP)
+    corr_diff += [dict(tree=None, example=e['example'], compress=e['compress'], model=e['model'], impl=e['impl']) for e in exdiff]
     rep.cov['programs'] = len(results)
     rep.cov['rule'] = RULE
     rep.cov['model_vs_impl_disagreements'] = len(corr_diff)
     rep.assumptions += [
         'operating-system behaviour of os.path.exists/join/dirname/abspath/getsize and open() is trusted (modelled as a map from '
         'absolute normalised paths to contents; exercised by the correspondence on real temporary directories)',
-        'outside the model (counted as unsupported, still covered by the oracle on the real code): include paths with .. or '
-        'non-normalised components, symbolic links, non-ASCII file names or contents, include cycles (the real code dies '
-        'with RecursionError: counted, not flagged)',
+        'path strings with . and .. components, repeated and trailing slashes are INSIDE the model (FS.resolve walks the components '
+        'the way the OS does on a filesystem without symbolic links); outside the model (counted as unsupported, still covered by '
+        'the oracle on the real code): symbolic links, a leading //, NUL in a path, non-ASCII file names or contents, include cycles '
+        '(the real code dies with RecursionError: counted, not flagged)',
         'the search order (-i directories in order, then the including file\'s directory) is the code\'s documented choice; '
         'the oracle splices with that order',
     ]
